@@ -54,6 +54,7 @@ def build_corpus(seed, tier, out, release_like=False, specs_file=None):
     failures = []
     env = dict(ENV)
     env["CARGO_TARGET_DIR"] = target_for(out)
+    env["VERIF_WORK"] = out
     for attempt in range(4):
         if not gen_corpus(seed, tier, out, dropped, release_like, specs_file):
             return False, dropped, failures
@@ -110,7 +111,9 @@ def run_property(prop, tier):
         log(outp.strip().splitlines()[-1])
     driver.clear_replays(prop)
     limit = 1500 if tier == "quick" else 6 * 3600
-    code, _ = run([runner_exe(out), prop, "--tier", tier, "--seed", str(seed)], timeout=limit)
+    env = dict(ENV)
+    env["VERIF_WORK"] = out
+    code, _ = run([runner_exe(out), prop, "--tier", tier, "--seed", str(seed)], timeout=limit, env=env)
     if code is None:
         log("watchdog: %s did not finish within %ds: inconclusive" % (prop, limit))
         return 2
@@ -137,7 +140,9 @@ def replay(doc, path):
         log("the grammar of the replay file does not compile any more")
         print("VIOLATION property=%s replay=%s" % (doc.get("property", "?"), path))
         return 1
-    code, _ = run([runner_exe(out), "replay", path], timeout=900)
+    env = dict(ENV)
+    env["VERIF_WORK"] = out
+    code, _ = run([runner_exe(out), "replay", path], timeout=900, env=env)
     return code if code in (0, 1) else 2
 
 
